@@ -21,10 +21,15 @@ applied by a wrapper around the sender's connection.  The alteration classes
 are refined to every single-bit flip and every truncation length of both
 messages.  The extra-connection scripts run the real acceptExtraConns /
 dialExtraConns against scripted peers and identify the returned connections
-by their TLS exporter value.
+by their TLS exporter value.  The call order on the primary connection is
+observed on the real binaries: whole host / join sessions are run and both
+processes' hook traces are validated with TLC against SessionTrace.tla (no
+transfer-phase event before a successful auth.end, xfer.begin only from the
+authenticated state).
 """
 import os
 import vlib
+import e2e_common
 
 PROP = "C08"
 ON = dict(RoleCheck=True, BindSession=True, UseOnlyAuthed=True)
@@ -63,6 +68,10 @@ def run(tier, seed):
     res = vlib.merge_results([scripts, bits, extras])
     for viol in res['violations']:
         v.violation(viol['sig'], viol.get('replay'))
+    # the primary connection's call order in the real run functions: hook traces of real host / join
+    # processes validated against SessionTrace.tla (no transfer-phase event before auth.end(ok))
+    sess = e2e_common.run_sessions(6 if quick else 36, seed, work)
+    e2e_common.report(v, PROP, sess)
     if res['drift']:
         print("DRIFT C08: %d scripts where the real accept/reject differs from Auth.tla (not a verdict)" % res['drift'])
         v.notes.append(str(res['drift_samples'][:2])[:600])
@@ -72,8 +81,9 @@ def run(tier, seed):
                       replay=dict(attack_scripts=scripts['behaviours'], of=r['edges'], bit_and_truncation_cases=bits['behaviours'], of_bits=901,
                                   extra_connection_scripts=extras['behaviours'], outcomes=scripts['extra'].get('outcomes'),
                                   bit_outcomes=bits['extra'].get('outcomes'), extras_outcomes=extras['extra'].get('outcomes')),
+                      whole_sessions=dict(sessions=sess['res']['behaviours'], trace_lines_validated=sess['lines'], outcomes=sess['res']['extra'].get('outcomes')),
                       negative_controls_refuted=controls, drift=res['drift'], samples=res['samples'][:8])
     v.assumptions = ["HMAC-SHA256 and the TLS exporter are ideal (symbolic model): no forgery without the key, distinct sessions have unrelated exporter values",
                      "offline guessing of the join code from an observed proof is out of scope",
-                     "the primary connection's call order in runICEQUICTransfer / runTransfer is bound by the binary-level session traces (C09 harness), the extra connections by the real accept/dial loops here"]
+                     "the primary connection's call order in runICEQUICTransfer / runTransfer is observed on honest whole sessions (trace validation); a rogue peer against the binaries' primary connection is not scripted"]
     return v.finish()
